@@ -2,3 +2,5 @@
 //! the winterfell code it judges and does not depend on winterfell at all.
 
 pub mod codec;
+pub mod field;
+pub mod poly;
